@@ -30,7 +30,7 @@ Lemma set_adjust_pts v : s_pts (run_script s0 (ops ++ [SSetAdjustPTS v])) = v mo
 Proof. rewrite run_app. reflexivity. Qed.
 Lemma set_pts v :
   let s' := run_script s0 (ops ++ [SSetPTS v]) in
-  s_pts s' = v /\ (s_cmd s = CNull \/ cmd_pts (s_cmd s') = v mod 8589934592) /\
+  s_pts s' = v mod 8589934592 /\ (s_cmd s = CNull \/ cmd_pts (s_cmd s') = v mod 8589934592) /\
   cmd_has_pts (s_cmd s') = cmd_has_pts (s_cmd s).
 Proof.
   rewrite run_app. fold s. cbn [run_script fold_left apply_sig_op]. cbn [with_cmd with_pts s_pts s_cmd].
